@@ -1371,3 +1371,35 @@ def header_edits():
                             if new != lines[g[0]][g[1]:g[3]]:
                                 out.append((src, (new, *g), kind + ':gap'))
     return out
+
+
+def span_edits():
+    """[(src, (new, ln, col, end_ln, end_col), label)]: edits that span the last two statements of every block of every
+    block statement kind (the enclosing block statement itself is the reparse region, it is reparsed whole and its end -
+    and the end of every ancestor that ended with it - changes)"""
+    out = []
+    b2 = '    x = 1\n    yzw = 22\n'
+    for tmpl in HEADER_TEMPLATES:
+        if _B not in tmpl and 'x = 1\n' not in tmpl:
+            continue
+        t2 = tmpl.replace('        x = 1\n', '\0').replace(_B, b2).replace('\0', '        x = 1\n        yzw = 22\n')
+        for src in (t2, 'k = 0\n' + t2, _indent(t2, 'def outer():\n'), _indent(t2, 'if q:\n    pass\nelse:\n')):
+            try:
+                tree = ast.parse(src)
+            except Exception:
+                continue
+            lines = src.split('\n')
+            for node in ast.walk(tree):
+                if node.__class__.__name__ not in BLOCK_KINDS:
+                    continue
+                for f in BLOCK_FIELDS:
+                    body = getattr(node, f, None)
+                    if not isinstance(body, list) or len(body) < 2 or not isinstance(body[-1], ast.stmt):
+                        continue
+                    a, b = body[-2], body[-1]
+                    ind = lines[b.lineno - 1][:b.col_offset]
+                    rect = (a.lineno - 1, char_col(lines[a.lineno - 1], a.col_offset), b.end_lineno - 1,
+                            char_col(lines[b.end_lineno - 1], b.end_col_offset))
+                    for new in ('p\n' + ind + 'q', 'p\n' + ind + 'qqqqqqqqqq', 'p; q', 'p\n' + ind + 'q  # c', 'p'):
+                        out.append((src, (new, *rect), node.__class__.__name__ + ':span-' + f))
+    return out
